@@ -231,6 +231,22 @@ def rule_table(rep: Report, repo: Repo, used: Set[str]) -> None:
             ok = isinstance(v, ast.Name) and v.id == '_pow' and len(params) == 2 and rets in (
                 [f'int({params[0]} ** {params[1]})'], [f'{params[0]} ** {params[1]}'])
             rep.check(ok, 'C12.TABLE', 'entry **', f'{norm(v)} returns {rets}', site, expected='base ** exp (non-negative exponent)')
+            # ... and refuses exactly the negative exponents (x ** 0 is 1, x ** -1 is not an integer)
+            from ..excflow import refusal_tests
+            gs_ = [e_ for r_, e_ in refusal_tests(pw)]
+            badp = []
+            if not gs_:
+                badp.append('no refusal found')
+            else:
+                for ev_ in (-2, -1, 0, 1, 2):
+                    try:
+                        got_ = any(bool(eval_int_expr(t_, {params[0]: 3, params[1]: ev_})) for t_ in gs_)
+                    except AnalysisError as ex_:
+                        badp.append(str(ex_))
+                        break
+                    if got_ != (ev_ < 0):
+                        badp.append(f'exponent {ev_}: refused={got_}')
+            rep.check(not badp, 'C12.TABLE', 'entry **:guard', badp[0] if badp else 'refused iff the exponent is negative', site, expected='exp < 0')
         elif op in REF_LAMBDAS:
             ar, meanings = REF_LAMBDAS[op]
             v = _entry_as_lambda(repo, v, imports, shadowed)
